@@ -32,7 +32,8 @@ def run(tier, selftest):
     if len(cases) < 2000:
         vlib.tool_error(f"vacuity: only {len(cases)} skip cases")
     rng = random.Random(vlib.seed() * 7 + 7)
-    sel = cases if tier == "thorough" else [c for c in cases if rng.random() < 0.25]
+    # the stop-list family (a keyword payload in front of every sub-element of every block) always runs completely
+    sel = cases if tier == "thorough" else [c for c in cases if c.get("next", "-") != "-" or rng.random() < 0.2]
     docs, meta = [], []
     for c in sel:
         base, withp, ok = pc.skip_documents(c)
